@@ -193,7 +193,7 @@ Lemma nested_flags : forall body, body_mono body ->
   forall h s r o h' s', nested0 E C fault body h s = (r, o, h', s') -> flags_le (s_fl s) (s_fl s').
 Proof.
   intros body HB h s r o h' s' H. unfold nested0 in H.
-  destruct (c_nonest C).
+  destruct (c_nonest C || s_nonest s).
   - destruct (body h s) as [[[r0 l0] h0] s0] eqn:Eb. inversion H; subst. eapply HB; exact Eb.
   - destruct (h_sp E C fault true (NGen (s_gen s)) h (next_gen s)) as [h1 s1] eqn:Es.
     apply h_sp_flags in Es. cbn [next_gen s_fl] in Es.
@@ -212,18 +212,20 @@ Proof.
       destruct (fault _); [|apply flags_le_refl]. repeat split; cbn; auto.
 Qed.
 
-Lemma nested_cx_flags : forall cx body, body_mono body ->
-  forall h s r o h' s', nested E C fault cx body h s = (r, o, h', s') -> flags_le (s_fl s) (s_fl s').
+Lemma nested_cx_flags : forall cx nn body, body_mono body ->
+  forall h s r o h' s', nested E C fault cx nn body h s = (r, o, h', s') -> flags_le (s_fl s) (s_fl s').
 Proof.
-  intros cx body HB h s r o h' s' H. unfold nested in H. destruct cx.
-  - destruct (nested0 E C fault body h (set_dead s false)) as [[[r0 o0] h0] s0] eqn:En.
-    apply (nested_flags _ HB) in En. inversion H; subst. exact En.
-  - apply (nested_flags _ HB) in H. exact H.
+  intros cx nn body HB h s r o h' s' H. unfold nested in H.
+  match type of H with context [nested0 E C fault body h ?sx] => set (s2 := sx) in * end.
+  destruct (nested0 E C fault body h s2) as [[[r0 o0] h0] s0] eqn:En.
+  apply (nested_flags _ HB) in En. inversion H; subst.
+  assert (E2 : s_fl s2 = s_fl s) by (subst s2; destruct cx, nn; reflexivity).
+  rewrite E2 in En. destruct cx, nn; exact En.
 Qed.
 
 Lemma run_body_flags : forall p, body_mono (run_body E C fault p).
 Proof.
-  induction p as [o | m chk k IHk | chk k IHk | b IHb chk rcv cx k IHk | n k IHk | n k IHk | k IHk];
+  induction p as [o | m chk k IHk | chk k IHk | b IHb chk rcv cx nn k IHk | n k IHk | n k IHk | k IHk];
     intros h s r l h' s' H; cbn [run_body] in H; [| | | | | |apply IHk in H; exact H].
   - destruct o; inversion H; subst; apply flags_le_refl.
   - destruct (h_stmt fault (Some m) h s) as [[e n0] s1] eqn:Es. apply h_stmt_flags in Es.
@@ -240,8 +242,8 @@ Proof.
       inversion H; subst. rewrite <- Es; exact Ek.
     + destruct (run_body E C fault k h s1) as [[[r0 l0] h0] s0] eqn:Ek. apply IHk in Ek.
       inversion H; subst. rewrite <- Es; exact Ek.
-  - destruct (nested E C fault cx (run_body E C fault b) h s) as [[[r0 o0] h1] s1] eqn:En.
-    apply (nested_cx_flags _ _ IHb) in En.
+  - destruct (nested E C fault cx nn (run_body E C fault b) h s) as [[[r0 o0] h1] s1] eqn:En.
+    apply (nested_cx_flags _ _ _ IHb) in En.
     destruct r0 as [|e0|p0].
     + destruct (run_body E C fault k h1 s1) as [[[r1 l1] h2] s2] eqn:Ek. apply IHk in Ek.
       inversion H; subst. eapply flags_le_trans; eassumption.
